@@ -206,3 +206,14 @@ Proof.
                (fun t' b Hg => proj1 (IH Hrest t' b Hg)) Hcons _ _ _ _ _ E).
   - cbn [orb] in Ht. apply IH; assumption.
 Qed.
+
+(* consumption, without the known-type hypothesis: an unknown type never decodes successfully *)
+Corollary dec_consume tables ss t buf fs r :
+  dec_safe_env tables ss = true -> spec_dec_env tables ss t buf = Ok (fs, r) ->
+  exists pre, buf = pre ++ r /\ msize_env ss t <= lenN pre.
+Proof.
+  intros Hs E. destruct (has_id ss t) eqn:Eh.
+  - exact (proj2 (dec_safe tables ss Hs t buf Eh) fs r E).
+  - exfalso. clear Hs. induction ss as [|x rest IH]; cbn [spec_dec_env has_id] in *; [discriminate|].
+    apply orb_false_iff in Eh. destruct Eh as [E1 E2]. rewrite E1 in E. apply IH; assumption.
+Qed.
